@@ -74,6 +74,11 @@ fn apply_prefix(map: &mut crate::anymap::AnyMap, prefix: &[Step]) {
                     map.remove_free_dart(*d);
                 }
             }
+            Step::RemoveAnyDart(d) => {
+                if *d != 0 && *d < map.n_darts() as u32 {
+                    let _ = crate::hist::remove_catching(map, *d);
+                }
+            }
         }
     }
 }
